@@ -136,6 +136,15 @@ def struct_faults(w, msg_bytes, r):
                 x = fresh()
                 setattr(x.cfg.edges[ei], fld, wu)
                 emit("illtyped:edge_%s->%s:%d" % (fld, wk, ei), x, "deser")
+                # ... and the same with the offending UUID ALSO named in the vertex list
+                x = fresh()
+                setattr(x.cfg.edges[ei], fld, wu)
+                x.cfg.vertices.append(wu)
+                emit("illtyped:listed_vertex:edge_%s->%s:%d" % (fld, wk, ei), x, "deser")
+            x = fresh()
+            setattr(x.cfg.edges[ei], fld, missing)
+            x.cfg.vertices.append(missing)
+            emit("dangling:listed_vertex:edge_%s:%d" % (fld, ei), x, "deser")
     n = 0
     for mi, m in enumerate(base.modules):
         for si, s in enumerate(m.sections):
